@@ -40,6 +40,8 @@ pub mod kind {
     pub const RNG: u8 = 34;
     pub const LOG: u8 = 35;
     pub const HASHKEY: u8 = 36;
+    /// Debug::fmt of the user's scalar (debug printing): a user callback too
+    pub const DEBUG_FMT: u8 = 37;
 
     pub fn is_value(k: u8) -> bool {
         k < 32
@@ -77,6 +79,7 @@ pub mod kind {
             RNG => "rng_draw",
             LOG => "log_write",
             HASHKEY => "hash_key",
+            DEBUG_FMT => "debug_fmt",
             _ => "?",
         }
     }
@@ -94,9 +97,12 @@ pub enum FaultKind {
     /// unwind out of the call (caller-side cancellation)
     Unwind,
     /// unwind out of the first user callback of any kind (scalar arithmetic, RNG
-    /// draw, logger write) at or after the index: a panicking user-supplied RNG
-    /// or logger
+    /// draw, logger write, Debug::fmt of the scalar) at or after the index: a
+    /// panicking user-supplied RNG, logger or Debug impl
     UnwindAny,
+    /// unwind out of the first debug-output callback (Debug::fmt of the scalar,
+    /// logger write) at or after the index
+    UnwindDebug,
 }
 
 impl FaultKind {
@@ -110,6 +116,7 @@ impl FaultKind {
             FaultKind::Negate => "negate".into(),
             FaultKind::Unwind => "unwind".into(),
             FaultKind::UnwindAny => "unwind-from-any-callback".into(),
+            FaultKind::UnwindDebug => "unwind-from-debug-output-callback".into(),
         }
     }
     pub fn apply(&self, r: u64) -> u64 {
@@ -121,7 +128,7 @@ impl FaultKind {
             FaultKind::Zero => 0.0f64.to_bits(),
             FaultKind::Perturb(j) => (v * (1.0 + (2.0f64).powi(-(*j as i32)))).to_bits(),
             FaultKind::Negate => (-v).to_bits(),
-            FaultKind::Unwind | FaultKind::UnwindAny => r,
+            FaultKind::Unwind | FaultKind::UnwindAny | FaultKind::UnwindDebug => r,
         }
     }
 }
@@ -264,8 +271,11 @@ pub fn event(k: u8, a: u64, b: u64, r: u64) -> u64 {
             _ => {}
         }
         let mut out = r;
-        if !c.faults.is_empty() && (k == kind::RNG || k == kind::LOG || kind::is_arith(k)) {
-            if let Some(i) = c.faults.iter().position(|f| f.kind == FaultKind::UnwindAny && idx >= f.at) {
+        if !c.faults.is_empty() && (k == kind::RNG || k == kind::LOG || k == kind::DEBUG_FMT || kind::is_arith(k)) {
+            let dbg = k == kind::LOG || k == kind::DEBUG_FMT;
+            if let Some(i) = c.faults.iter().position(|f| {
+                idx >= f.at && (f.kind == FaultKind::UnwindAny || (dbg && f.kind == FaultKind::UnwindDebug))
+            }) {
                 let f = c.faults.remove(i);
                 c.fired.push((idx, f.kind, k));
                 c.trace_hash = mix(c.trace_hash, 0xdeaf);
@@ -306,8 +316,10 @@ pub fn event(k: u8, a: u64, b: u64, r: u64) -> u64 {
         if idx >= c.op_cap {
             c.cap_hit = true;
         }
-        // preemption point
-        if c.sched.is_some() {
+        // preemption point -- except inside Debug::fmt: println! holds std's stdout
+        // lock while it formats, so a caller descheduled there would block the others
+        // in the OS (a lock held across a seam event, by the standard library itself)
+        if c.sched.is_some() && k != kind::DEBUG_FMT {
             let mut offer = false;
             while c.plan_next < c.plan.points.len() && c.plan.points[c.plan_next] <= tidx {
                 if c.plan.points[c.plan_next] == tidx {
